@@ -422,10 +422,13 @@ func helloDetails() wamp.Dict {
 // helloDetailsFeat also announces progressive call results and call canceling.
 func helloDetailsFeat() wamp.Dict {
 	f := func() wamp.Dict {
-		return wamp.Dict{"features": wamp.Dict{"progressive_call_results": true, "call_canceling": true}}
+		return wamp.Dict{"features": wamp.Dict{"progressive_call_results": true, "call_canceling": true,
+			"progressive_call_invocations": true}}
 	}
 	return wamp.Dict{"roles": wamp.Dict{
-		"publisher": wamp.Dict{}, "subscriber": wamp.Dict{}, "caller": f(), "callee": f()}}
+		"publisher":  wamp.Dict{"features": wamp.Dict{"publisher_identification": true, "subscriber_blackwhite_listing": true, "publisher_exclusion": true}},
+		"subscriber": wamp.Dict{"features": wamp.Dict{"publisher_identification": true}},
+		"caller":     f(), "callee": f()}}
 }
 
 func (r *runner) realmConfig(uri string) *router.RealmConfig {
@@ -730,6 +733,9 @@ func (s *sess) handle(m wamp.Message) {
 		satisfy(m.Request)
 		if p, _ := m.Details["progress"].(bool); p {
 			rec.Info = "progress"
+			if t := tokenOf(m.Arguments); t != "" {
+				rec.Info = "progress " + t
+			}
 		}
 	case *wamp.Error:
 		satisfy(m.Request)
@@ -749,6 +755,9 @@ func (s *sess) handle(m wamp.Message) {
 	case *wamp.Event:
 		tok := tokenOf(m.Arguments)
 		rec.Info = tok
+		if p, ok := m.Details["publisher"]; ok {
+			rec.Info = fmt.Sprintf("%s publisher=%v", tok, p)
+		}
 		if tok != "" {
 			// token e<pub>.<topic>.<seq>: order per publisher and topic
 			if i := strings.LastIndex(tok, "."); i > 0 {
